@@ -46,8 +46,7 @@ def _downgrade_opaque(prog: Program, res: Result) -> None:
     rules cannot see through (outside the rule inventory and not reducible by
     the normal form) is not a verdict: it becomes an analysis error naming
     the obstacle.  Findings elsewhere are untouched."""
-    if not (prog.norm_report.get("new_functions")
-            or prog.norm_report.get("new_names")):
+    if not res.findings:
         return
     keep = []
     for f in res.findings:
@@ -112,6 +111,8 @@ def _standing(prog: Program, f, reasons: list[str]) -> bool:
         runtime, defects = _DEFECTS[key]
         if not runtime:
             return False
+        defects = [d for d in defects
+                   if not d.startswith("[R-CACHE-UNDECIDED]")]
         if defects:
             notes += defects
         elif f.rule.endswith("-STATELESS"):
